@@ -9,7 +9,8 @@
 (*   split  ratio = a / 2^b, pick = which half to continue with                                     *)
 (*   shuffle a = seed; boot (a, b) = (samples, features); boots a = samples; bootf a = features     *)
 (*   wl     ls = labels to keep; ova pick = which label's view; chunk a = chunk size                *)
-(*   titer / fiter pick = which column's view; map a = 0 "inc" (l+1), 1 "half" (l div 2)            *)
+(*   titer / fiter pick = which column's view; map a = 0 "inc" (l+1), 1 "half" (l div 2),           *)
+(*   2 "rot" ((2l+1) mod 3: not monotone)                                                           *)
 EXTENDS DatasetOps, Json
 
 CONSTANTS Ns, Fs, Ts, Metas, Stores, Pats,   \* sets: initial configurations
@@ -29,6 +30,15 @@ SplitRatios(lv) == CASE lv = "full" -> {<<0, 0>>, <<1, 2>>, <<1, 1>>, <<3, 2>>, 
                      [] OTHER       -> {<<1, 1>>}
 Picks2(lv) == IF lv = "min" THEN {1} ELSE {0, 1}
 
+\* label lists of with_labels: the caller's slice is arbitrary -- every order of each list, repeated labels, labels
+\* that no sample carries (9; 3 unless a map produced it), the empty list
+Perms3(a, b, c) == {<<a, b, c>>, <<a, c, b>>, <<b, a, c>>, <<b, c, a>>, <<c, a, b>>, <<c, b, a>>}
+WlLists(lv) ==
+  CASE lv = "full" -> {<<>>, <<0>>, <<1>>, <<0, 2>>, <<2, 0>>, <<1, 1>>, <<2, 0, 2>>, <<0, 0, 1>>, <<9, 1>>, <<1, 9>>, <<9>>}
+                      \cup Perms3(1, 2, 3) \cup {<<2, 1, 0>>, <<1, 0, 2>>}
+    [] lv = "mid"  -> {<<0>>, <<1, 2>>, <<2, 1>>, <<2, 0, 1>>, <<2, 2, 1>>, <<9, 1>>}
+    [] OTHER       -> {<<0, 1>>, <<1, 0>>, <<1, 0, 1>>, <<9, 0>>}
+
 Alpha(lv, nf, nt, lastop) ==
   {O0("view"), O0("toowned"), O0("single")}
   \cup {O("split", ab[1], ab[2], p, <<>>) : ab \in SplitRatios(lv), p \in (IF lv = "min" THEN {0, 1} ELSE {0, 1})}
@@ -38,17 +48,15 @@ Alpha(lv, nf, nt, lastop) ==
           [] OTHER       -> {O("boot", 2, 2, 0, <<>>)})
   \cup {O("boots", s, 0, 0, <<>>) : s \in (IF lv = "full" THEN {1, 3} ELSE {2})}
   \cup {O("bootf", k, 0, 0, <<>>) : k \in (IF lv = "full" THEN {1, 3} ELSE {2})}
-  \cup {O("wl", 0, 0, 0, ls) : ls \in (CASE lv = "full" -> {<<>>, <<0>>, <<1>>, <<0, 2>>, <<1, 2, 3>>}
-                                          [] lv = "mid"  -> {<<0>>, <<1, 2>>}
-                                          [] OTHER       -> {<<0, 1>>})}
+  \cup {O("wl", 0, 0, 0, ls) : ls \in WlLists(lv)}
   \cup {O("ova", 0, 0, p, <<>>) : p \in (CASE lv = "full" -> {0, 1, 2} [] lv = "mid" -> {0, 1} [] OTHER -> {1})}
   \cup (CASE lv = "full" -> {O("chunk", 1, 0, 0, <<>>), O("chunk", 1, 0, 2, <<>>), O("chunk", 2, 0, 0, <<>>),
-                             O("chunk", 2, 0, 1, <<>>), O("chunk", 3, 0, 0, <<>>)}
+                             O("chunk", 2, 0, 1, <<>>), O("chunk", 3, 0, 0, <<>>), O("chunk", 5, 0, 0, <<>>)}
           [] lv = "mid"  -> {O("chunk", 1, 0, 1, <<>>), O("chunk", 2, 0, 0, <<>>)}
           [] OTHER       -> {O("chunk", 2, 0, 0, <<>>)})
   \cup {O("titer", 0, 0, p, <<>>) : p \in 0..((IF nt > 2 THEN 2 ELSE nt) - 1)}
   \cup {O("fiter", 0, 0, p, <<>>) : p \in 0..((IF nf > 2 THEN 2 ELSE nf) - 1)}
-  \cup {O("map", m, 0, 0, <<>>) : m \in (IF lv = "min" THEN {0} ELSE {0, 1})}
+  \cup {O("map", m, 0, 0, <<>>) : m \in (IF lv = "min" THEN {2} ELSE {0, 1, 2})}
 
 NextNf(o, nf) == CASE o.op = "boot" -> o.b [] o.op = "bootf" -> o.a [] o.op = "fiter" -> 1 [] OTHER -> nf
 NextNt(o, nt) == IF o.op = "titer" THEN 1 ELSE nt
